@@ -72,30 +72,44 @@ def obs(env, frozen_mask):
             f'd={1 if env.has_done() else 0} c={show_contract(env.contract())} dl={env.dealer.name} v={env.vul} ms=1')
 
 
-def impl_exec(ops):
-    import numpy as np
-    from bridge_env import Bid, BiddingPhase, BiddingPhaseState, Player, Vul
-    vmap = {'None': Vul.NONE, 'NS': Vul.NS, 'EW': Vul.EW, 'Both': Vul.BOTH}
-    out, env, frozen = [], None, None
-    for op in ops:
+class AuctionImpl:
+    """one live BiddingPhase driven op by op"""
+
+    def __init__(self):
+        self.env, self.frozen = None, None
+
+    def step(self, op):
+        import numpy as np
+        from bridge_env import Bid, BiddingPhase, BiddingPhaseState, Player, Vul
+        vmap = {'None': Vul.NONE, 'NS': Vul.NS, 'EW': Vul.EW, 'Both': Vul.BOTH}
         t = op.split()
         if t[0] == 'A.new':
-            env = BiddingPhase(dealer=Player[t[1]], vul=vmap[t[2]])
-            frozen = None
-            out.append('NEW ' + obs(env, frozen))
-        elif t[0] == 'A.call':
+            self.env = BiddingPhase(dealer=Player[t[1]], vul=vmap[t[2]])
+            self.frozen = None
+            return 'NEW ' + obs(self.env, self.frozen)
+        if t[0] == 'A.call':
+            env = self.env
             try:
                 r = env.take_bid(Bid.int_to_bid(int(t[1])))
                 rs = {BiddingPhaseState.ILLEGAL: 'ILLEGAL', BiddingPhaseState.ONGOING: 'ONGOING',
                       BiddingPhaseState.FINISHED: 'FINISHED'}.get(r, f'RES?{r}')
             except Exception:
                 rs = 'ERR'
-            if env.has_done() and frozen is None:
-                frozen = [float(x) for x in np.asarray(env.available_bid).tolist()]
-            out.append(rs + ' ' + obs(env, frozen))
-        else:
-            out.append('bad-op')
-    return out
+            if env.has_done() and self.frozen is None:
+                self.frozen = [float(x) for x in np.asarray(env.available_bid).tolist()]
+            return rs + ' ' + obs(env, self.frozen)
+        return 'bad-op'
+
+
+def impl_exec(ops):
+    im = AuctionImpl()
+    return [im.step(op) for op in ops]
+
+
+def impl_exec_multi(tagged):
+    """several live objects advanced alternately: [(tag, op)] -> outputs in the same order"""
+    ims = {}
+    return [ims.setdefault(tag, AuctionImpl()).step(op) for tag, op in tagged]
 
 
 # ---------------------------------------------------------------- generators
